@@ -17,9 +17,6 @@ MUTATORS = {
 # classes whose instances are updated in place by design (one line of reason each)
 MUTABLE_BY_DESIGN = {
     "utils.dynamic_programming:Entry": "a DP cell: update() is its purpose (C16)",
-    "utils.dynamic_programming:Table": "DP table: cells are created on first write",
-    "utils.dynamic_programming:EntryProxy": "lazy cell creation",
-    "utils.dynamic_programming:TableProxy": "lazy cell creation",
     "utils.disjoint_set:DisjointSet": "union-find: find() compresses paths, unite() links (C20)",
 }
 PURE_SCOPE = ("compute.", "model.", "utils.", "render.")
@@ -131,6 +128,26 @@ def solver_stateless(prog: Program) -> RuleResult:
                 if root and root not in locals_ and _is_module_state(prog, mod, root, mod_names):
                     bad.append((node, f"`{short(node, 70)}` mutates module-level object `{root}`"))
             del target, what
+        # (c') a local bound to the result of a package function that hands out a module-level object
+        shared_locals: Dict[str, str] = {}
+        for node in walk_no_nested(fn):
+            if isinstance(node, ast.Assign) and len(node.targets) == 1 and isinstance(node.targets[0], ast.Name) and isinstance(node.value, ast.Call):
+                src = _returns_module_state(prog, mod, node.value)
+                if src:
+                    shared_locals[node.targets[0].id] = src
+        if shared_locals:
+            for node in walk_no_nested(fn):
+                hit = None
+                if isinstance(node, (ast.Assign, ast.AugAssign, ast.Delete)):
+                    tgts = node.targets if isinstance(node, (ast.Assign, ast.Delete)) else [node.target]
+                    for tgt in tgts:
+                        if isinstance(tgt, ast.Subscript) and _root_name(tgt) in shared_locals:
+                            hit = _root_name(tgt)
+                elif isinstance(node, ast.Call) and isinstance(node.func, ast.Attribute) and node.func.attr in MUTATORS:
+                    if _root_name(node.func.value) in shared_locals:
+                        hit = _root_name(node.func.value)
+                if hit:
+                    bad.append((node, f"`{short(node, 70)}` writes into `{hit}`, which is the module-level object `{shared_locals[hit]}` handed out by a function (every later caller sees the change)"))
         # (e) shallow copy of a module-level container whose values are themselves mutable, then written through
         for node in walk_no_nested(fn):
             if not (isinstance(node, (ast.Assign, ast.AnnAssign)) and node.value is not None):
@@ -210,6 +227,20 @@ def solver_stateless(prog: Program) -> RuleResult:
     if n_funcs < 100:
         raise AnalysisError(f"SOLVER-STATELESS: only {n_funcs} functions found under compute/, model/, utils/")
     return res
+
+
+def _returns_module_state(prog: Program, mod: Module, call: ast.Call) -> Optional[str]:
+    """Name of the module-level mutable object a package function returns as is (`return DEFAULT`), if any."""
+    target = resolve_callee(prog, mod, call.func)
+    if target is None or not isinstance(target[1], FuncNode):
+        return None
+    tmod, tfn = target
+    names = _module_level_names(tmod)
+    for ret in walk_no_nested(tfn):
+        if isinstance(ret, ast.Return) and isinstance(ret.value, ast.Name) and ret.value.id in names:
+            if _is_mutable_literal(names[ret.value.id]) and ret.value.id not in _local_names(tfn):
+                return ret.value.id
+    return None
 
 
 def _shallow_copy_of(value: ast.AST) -> Optional[str]:
@@ -941,7 +972,217 @@ def eq_by_fields(prog: Program) -> RuleResult:
     return res
 
 
+# ---------------------------------------------------------------------------
+
+
+def none_sentinel_truth(prog: Program) -> RuleResult:
+    res = RuleResult(
+        "NONE-SENTINEL-TRUTH",
+        "a value obtained with an explicit None sentinel (`next(it, None)`, `d.get(k)`, `d.get(k, None)`) and then "
+        "compared with other values is tested against the sentinel with `is None` / `is not None`, not by "
+        "truthiness: a legitimate falsy element (0, '', an empty tuple) would be taken for 'exhausted'",
+    )
+    n = 0
+    for mod, qual, fn in prog.functions():
+        key = _modkey(mod)
+        if not key.startswith(PURE_SCOPE):
+            continue
+        sentinels: Dict[str, ast.AST] = {}
+        for node in walk_no_nested(fn):
+            if isinstance(node, ast.Assign) and len(node.targets) == 1 and isinstance(node.targets[0], ast.Name) and isinstance(node.value, ast.Call):
+                call = node.value
+                if dotted(call.func) == "next" and len(call.args) == 2 and isinstance(call.args[1], ast.Constant) and call.args[1].value is None:
+                    sentinels[node.targets[0].id] = node
+        for name, origin in sentinels.items():
+            n += 1
+            construct = f"{key}:{qual}/sentinel[{name}]"
+            bad = []
+            for node in walk_no_nested(fn):
+                tests = []
+                if isinstance(node, (ast.If, ast.While, ast.IfExp, ast.Assert)):
+                    tests.append(node.test)
+                for test in tests:
+                    stack = [test]
+                    while stack:
+                        t = stack.pop()
+                        if isinstance(t, ast.BoolOp):
+                            stack.extend(t.values)
+                        elif isinstance(t, ast.UnaryOp) and isinstance(t.op, ast.Not):
+                            stack.append(t.operand)
+                        elif isinstance(t, ast.Name) and t.id == name:
+                            bad.append(node)
+            if bad:
+                res.fail(construct, f"`{name}` comes from `{short(origin.value)}` and is tested by truthiness in `{short(bad[0].test, 50)}`: a falsy element ends the scan as if the iterator were exhausted", mod, bad[0])
+            else:
+                res.ok(construct, "compared with `is None`")
+    if n == 0:
+        res.ok("package/no-none-sentinel", "no `next(it, None)` sentinel in compute/, model/, utils/, render/", nontrivial=False)
+    return res
+
+
+def optional_checked(prog: Program) -> RuleResult:
+    res = RuleResult(
+        "OPTIONAL-CHECKED",
+        "the result of a module function annotated `-> Optional[...]` (tree_from_triples, supertree, toposort, "
+        "find_cycle: None means 'no such tree / ordering / cycle') is returned as is, tested directly, or bound to a "
+        "name that is tested before any other use; it is never passed straight into another call (ete3's "
+        "add_child(None) silently creates an empty node) or dereferenced",
+    )
+    optional_fns: Dict[str, Tuple[Module, ast.AST]] = {}
+    for mod, qual, fn in prog.functions():
+        if "." in qual:
+            continue
+        ret = getattr(fn, "returns", None)
+        if ret is not None and ast.unparse(ret).startswith(("Optional[", "typing.Optional[")):
+            optional_fns[fn.name] = (mod, fn)  # type: ignore[attr-defined]
+    n = 0
+    from ..flow import guards as _guards
+
+    for mod, qual, fn in prog.functions():
+        key = _modkey(mod)
+        for call in walk_no_nested(fn):
+            if not (isinstance(call, ast.Call) and isinstance(call.func, ast.Name) and call.func.id in optional_fns):
+                continue
+            target = resolve_callee(prog, mod, call.func)
+            if target is None or target[1] is not optional_fns[call.func.id][1]:
+                continue
+            n += 1
+            construct = f"{key}:{qual}/{call.func.id}()#{n}"
+            par = mod.parent(call)
+            if isinstance(par, ast.Return):
+                res.ok(construct, "returned as is")
+                continue
+            if isinstance(par, ast.Compare) or isinstance(par, (ast.If, ast.While, ast.IfExp, ast.Assert)) or (isinstance(par, ast.UnaryOp) and isinstance(par.op, ast.Not)) or isinstance(par, ast.BoolOp):
+                res.ok(construct, "tested directly")
+                continue
+            if isinstance(par, ast.Assign) and len(par.targets) == 1 and isinstance(par.targets[0], ast.Name):
+                name = par.targets[0].id
+                bad = None
+                for use in walk_no_nested(fn):
+                    if not (isinstance(use, ast.Name) and use.id == name and isinstance(use.ctx, ast.Load)):
+                        continue
+                    if getattr(use, "lineno", 0) < par.lineno:
+                        continue
+                    up = mod.parent(use)
+                    in_test = isinstance(up, (ast.Compare, ast.If, ast.While, ast.IfExp, ast.Assert, ast.BoolOp)) or (isinstance(up, ast.UnaryOp) and isinstance(up.op, ast.Not))
+                    if in_test or isinstance(up, ast.Return):
+                        continue
+                    gs = _guards(fn, use)
+                    if any(name in {x.id for x in ast.walk(t) if isinstance(x, ast.Name)} for t, _p in gs):
+                        continue
+                    bad = use
+                    break
+                if bad is None:
+                    res.ok(construct, f"bound to `{name}`, tested before use")
+                else:
+                    res.fail(construct, f"`{name}` = `{short(call, 50)}` may be None and is used in `{short(mod.parent(bad), 60)}` without a test", mod, bad)
+                continue
+            res.fail(
+                construct,
+                f"`{short(call, 60)}` may return None and is passed straight into `{short(par, 70)}`: the absence of a result is swallowed",
+                mod,
+                call,
+            )
+    res.floor(3)
+    return res
+
+
+TOPOLOGY_WRITERS = {
+    "swap_children", "add_child", "remove_child", "detach", "delete", "prune", "sort_descendants", "ladderize",
+    "set_outgroup", "unroot", "resolve_polytomy", "add_sister", "remove_sister", "populate", "standardize",
+}
+
+
+def no_topology_write(prog: Program) -> RuleResult:
+    res = RuleResult(
+        "NO-TOPOLOGY-WRITE",
+        "the layout and drawing code never changes the shape or the child order of the trees of the reconciliation "
+        "it is given (no swap_children / add_child / detach / ...): computing a layout twice, or in the other "
+        "orientation, sees the same trees",
+    )
+    n = 0
+    for mod, qual, fn in prog.functions():
+        key = _modkey(mod)
+        if not key.startswith("render."):
+            continue
+        n += 1
+        construct = f"{key}:{qual}/topology-readonly"
+        bad = [
+            c for c in walk_no_nested(fn)
+            if isinstance(c, ast.Call) and isinstance(c.func, ast.Attribute) and c.func.attr in TOPOLOGY_WRITERS
+        ]
+        bad += [
+            st for st in walk_no_nested(fn)
+            if isinstance(st, (ast.Assign, ast.AugAssign))
+            and any(isinstance(t, ast.Attribute) and t.attr in ("children", "up") for t in (st.targets if isinstance(st, ast.Assign) else [st.target]))
+        ]
+        if bad:
+            for node in bad:
+                res.fail(construct, f"`{short(node, 70)}` rewires the tree it is laying out", mod, node)
+        else:
+            res.ok(construct, "no topology write", nontrivial=False)
+    if n < 10:
+        raise AnalysisError(f"NO-TOPOLOGY-WRITE: only {n} render functions found")
+    return res
+
+
+ELEMENT_TYPES = {"GeneFamily", "str"}
+
+
+def element_update(prog: Program) -> RuleResult:
+    res = RuleResult(
+        "ELEMENT-UPDATE",
+        "a single gene family (a string) is never given to an operation that expects a collection of families "
+        "(`set.update`, `list.extend`, `|=`, `.union`): that would add its characters. The element type comes "
+        "from the annotations (`Dict[GeneFamily, ...]` keys, `for family in <synteny>`).",
+    )
+    n = 0
+    for mod, qual, fn in prog.functions():
+        key = _modkey(mod)
+        if not key.startswith(("compute.", "model.")):
+            continue
+        # names known to hold one family
+        elems: Set[str] = set()
+        dict_key_elem: Set[str] = set()
+        for node in walk_no_nested(fn):
+            if isinstance(node, ast.AnnAssign) and isinstance(node.target, ast.Name):
+                ann = ast.unparse(node.annotation)
+                if ann.startswith(("Dict[", "Mapping[", "DefaultDict[")) and ann.split("[", 1)[1].split(",")[0].strip() in ELEMENT_TYPES:
+                    dict_key_elem.add(node.target.id)
+        for node in walk_no_nested(fn):
+            if isinstance(node, (ast.For, ast.comprehension)):
+                it, tgt = node.iter, node.target
+                if isinstance(it, ast.Call) and isinstance(it.func, ast.Attribute) and it.func.attr == "items" and dotted(it.func.value) in dict_key_elem:
+                    if isinstance(tgt, ast.Tuple) and isinstance(tgt.elts[0], ast.Name):
+                        elems.add(tgt.elts[0].id)
+                if isinstance(it, ast.Name) and it.id in dict_key_elem and isinstance(tgt, ast.Name):
+                    elems.add(tgt.id)
+                if isinstance(tgt, ast.Name) and tgt.id in ("family", "gene_family"):
+                    elems.add(tgt.id)
+        for node in walk_no_nested(fn):
+            arg = None
+            if isinstance(node, ast.Call) and isinstance(node.func, ast.Attribute) and node.func.attr in ("update", "extend", "union", "intersection_update", "difference_update") and len(node.args) == 1:
+                arg = node.args[0]
+            elif isinstance(node, ast.AugAssign) and isinstance(node.op, (ast.BitOr, ast.BitAnd, ast.Sub)) and isinstance(node.value, ast.Name):
+                arg = node.value
+            if arg is None or not isinstance(arg, ast.Name):
+                continue
+            n += 1
+            construct = f"{key}:{qual}/bulk-update[{short(node, 40)}]"
+            if isinstance(arg, ast.Name) and arg.id in elems:
+                res.fail(construct, f"`{short(node, 70)}` treats the single family `{arg.id}` as a collection: its characters are added one by one", mod, node)
+            else:
+                res.ok(construct, "argument is a collection", nontrivial=False)
+    if n == 0:
+        res.ok("package/no-bulk-update-of-a-name", "no set/list bulk update with a plain name as argument in compute/, model/", nontrivial=False)
+    return res
+
+
 RULES = {
+    "NONE-SENTINEL-TRUTH": none_sentinel_truth,
+    "OPTIONAL-CHECKED": optional_checked,
+    "NO-TOPOLOGY-WRITE": no_topology_write,
+    "ELEMENT-UPDATE": element_update,
     "ITERATOR-REUSE": iterator_reuse,
     "MEMO-KEY": memo_key,
     "READONLY-INPUT": readonly_input,
